@@ -1,6 +1,7 @@
 package checks
 
 import (
+	"bytes"
 	"context"
 	"errors"
 	"fmt"
@@ -51,7 +52,7 @@ func checkC20() fw.Check {
 		Assumptions:   []string{"faults are combined only with a SACK-capable target, where the expected outcome is unambiguous", "Linux build"},
 		Gen: func(tier string, seed int64) []fw.Case {
 			var reqs []c20Req
-			caps := []string{"sack-ok", "sack-ok-ecn", "sack-ok-unreach", "sack-ok-ts", "sack-ok-ts-bsd-order", "sack-ok-chatter", "sack-ok-slow-synack", "sack-ok-isn-wrap", "sack-ok-timeout0", "no-sackperm", "no-blocks", "closed", "no-handshake"}
+			caps := []string{"sack-ok", "sack-ok-ecn", "sack-ok-unreach", "sack-ok-ts", "sack-ok-ts-bsd-order", "no-blocks-long-segment", "net-unreachable", "sack-ok-chatter", "sack-ok-slow-synack", "sack-ok-isn-wrap", "sack-ok-timeout0", "no-sackperm", "no-blocks", "closed", "no-handshake"}
 			faults := []string{"factory", "filter1", "filter2", "send1", "send3", "read2", "read9", "read-late", "read-after-dest"}
 			for _, m := range []string{"syn", "sack", "prefer_sack"} {
 				for _, cp := range caps {
@@ -151,7 +152,13 @@ func runC20(c *fw.Ctx, id string, rq c20Req) {
 		// "no separate limit", not "already expired" - the target is as SACK-capable as with any other timeout
 		params.Timeout = 0
 	}
-	needPeer := rq.cap != "closed"
+	needPeer := rq.cap != "closed" && rq.cap != "net-unreachable"
+	if rq.cap == "net-unreachable" {
+		// "cannot connect" by the network: connect() fails at once with ENETUNREACH (a multicast address: a UDP socket
+		// can be connected to it, which is all the tool needs to pick its source address, a TCP one cannot)
+		target = netip.AddrFrom4([4]byte{224, 0, 0, byte(200 + c.Worker)})
+		params.Hostname = target.String()
+	}
 	env, err := newReqEnv(c, params, target, port, needPeer)
 	if err != nil {
 		c.Inconclusive(err.Error())
@@ -233,6 +240,13 @@ func runC20(c *fw.Ctx, id string, rq c20Req) {
 				if p.TTL == 2 {
 					e.inject(gen.WrapError(routerAddr(false, 5, 2), e.local, gen.DestUnreach, []uint8{13, 1, 10}[k%3], gen.QuoteBytes(p, 1, "fix"), "min", nil, 0), "unreachable-for-one-probe", p, oddUS(3*time.Millisecond))
 				}
+			}
+		}
+		if e.spec.V.Proto == "sack" && rq.cap == "no-blocks-long-segment" {
+			// the target acknowledges without SACK blocks on segments that carry 1400 bytes of data (a server that speaks
+			// first): longer than the tool's read buffer, the frame arrives cut short - its header still says "no SACK"
+			m.destBuild = func(e *simEnv, p *refmatch.Probe) []byte {
+				return gen.TCPReply(e.spec.Target, e.local, e.spec.Port, e.lport, 0x51000001, e.isn, wirefmt.TCPAck|wirefmt.TCPPsh, nil, bytes.Repeat([]byte{0x42}, 1400), nil)
 			}
 		}
 		if e.spec.V.Proto == "sack" && rq.cap == "no-blocks" {
@@ -330,7 +344,7 @@ func runC20(c *fw.Ctx, id string, rq c20Req) {
 	if rerr == nil && e2eSynHandles != rq.e2e {
 		viol("e2e-count", fmt.Sprintf("%d end-to-end SYN flows on the wire, %d requested", e2eSynHandles, rq.e2e))
 	}
-	capGap := rq.cap == "no-sackperm" || rq.cap == "no-blocks" || rq.cap == "closed"
+	capGap := rq.cap == "no-sackperm" || rq.cap == "no-blocks" || rq.cap == "closed" || rq.cap == "no-blocks-long-segment" || rq.cap == "net-unreachable"
 	sackAvailable := strings.HasPrefix(rq.cap, "sack-ok")
 	switch rq.method {
 	case "syn":
